@@ -17,7 +17,15 @@ pub fn mod_(
     let y = quantity_arg!(args);
 
     let x_value = x.unsafe_value().to_f64();
-    let y_value = y.convert_to(x.unit()).unwrap().unsafe_value().to_f64();
+    let y_value = if x.is_zero() {
+        // A value of zero does not necessarily carry the unit of `y` (e.g. `mod(0, 3 cm)`)
+        y.unsafe_value().to_f64()
+    } else {
+        y.convert_to(x.unit())
+            .map_err(|e| Box::new(RuntimeErrorKind::QuantityError(e)))?
+            .unsafe_value()
+            .to_f64()
+    };
 
     return_quantity!(x_value.rem_euclid(y_value), x.unit().clone())
 }
